@@ -57,6 +57,9 @@ func main() {
 		v, _ := strconv.ParseInt(p[1], 10, 64)
 		cfg.Params[p[0]] = v
 	}
+	if os.Getenv("NOSUM") == "" {
+		cfg.Summaries = symgo.DefaultSummaries
+	}
 	cfg.Stubs = map[string]symgo.ExtFn{}
 	for _, st := range strings.Split(*stubs, ",") {
 		switch st {
